@@ -15,7 +15,7 @@ def add(pid, level, technique, text, note, ref):
 
 
 add("C05", "exploration", "runtime monitoring: differential lock-step execution of 4 live back-ends against a dictionary reference model",
-    "Every answer of every public storage operation, over thousands of random histories (plus all short histories over a reduced alphabet in the thorough tier), is compared with a dictionary model; held means no divergence was observed on the histories driven, which cover name-prefix pairs, oversize values, recorded failures and partitions as values, key overrides, re-opened stores, reads through the memento handed out by the latest and by an earlier write of a call, listings with a limit, one metadata key written both ways (metadata store / next to the data) and both clusters.",
+    "Every answer of every public storage operation, over thousands of random histories (plus all short histories over a reduced alphabet in the thorough tier), is compared with a dictionary model; held means no divergence was observed on the histories driven, which cover name-prefix pairs, oversize values, recorded failures and partitions as values, key overrides, re-opened stores, reads through the memento handed out by the latest and by an earlier write of a call, listings with a limit, one metadata key written both ways (metadata store / next to the data, also under the empty key, also followed by a new result for the call), is_all_memoized with lists and one-shot iterables, listings with limit 0 and both clusters.",
     "Trusts the 60-line dictionary model and type-aware equality in vf/domain.py; says nothing about histories not generated.", "DESIGN.md §4 C05")
 
 add("C06", "exploration", "runtime monitoring: class invariant and LRU/eviction rules evaluated on the live MemoryCache after every operation of an exhaustive (to state closure) operation enumeration, plus audit-hook watch of file opens",
@@ -25,63 +25,63 @@ add("C07", "exploration", "runtime monitoring: after every step a separate cache
     "Integrity invariant checked over the whole store after every step of thousands of histories with shared override keys, None and partition results, writes cut short by a kernel-level file size limit, and writers forked from a process that had opened the store; held = no live memento ever changed, every c/<h> object hashed to h, equal bytes shared one version.",
     "Trusts sha256 and the shadow table; the file-level scan is layout dependent and only secondary.", "DESIGN.md §4 C07")
 add("C19", "exploration", "runtime monitoring: tree snapshot diff + audit-hook (and strace in the thorough tier) observation of every operation through read-only / null back-ends",
-    "Random storage histories and function-level call sequences against pre-populated stores (intact, or left with dangling / empty links by an interrupted writer) re-opened read-only in 12 variants, null storage, and the null runner on intact and damaged stores; every outcome is compared with the frozen dictionary, the storage trees are compared byte-for-byte (incl. mtimes) and mutating audit events / system calls are looked for.",
+    "Random storage histories and function-level call sequences against pre-populated stores (intact, or left with dangling / empty links by an interrupted writer) re-opened read-only in 12 variants, null storage, and the null runner on intact and damaged stores and for calls nested in a function of another cluster; every outcome is compared with the frozen dictionary, the storage trees are compared byte-for-byte (incl. mtimes) and mutating audit events / system calls are looked for.",
     "Access times are ignored; audit-hook coverage is CPython's, strace covers the rest in the thorough tier.", "DESIGN.md §4 C19")
 
 add("C02", "exploration", "runtime monitoring: execution recorder (body counts) + type-aware equality of every returned value + replayed exception class/message + recorded result type, across back-ends and modifiers",
     "Each (value, backend, modifier) runs on a fresh store: first call, two later calls, re-use of the first value, memento result type, forget and recompute while a call of another argument holds an equal result / failed in exactly the same way (it must still be served). Held = every later call was observed to be served without a body execution and equal in value and type, for all result types of the domain and 15 exception classes.",
     "The recorder is the ground truth for body executions; equality is vf.domain.eq; exception rebuildability is decided by importing the class by name and calling it with one string.", "DESIGN.md §4 C02")
 add("C17", "exploration", "runtime monitoring: key-by-key comparison of every partition handed back (computing call, later call, cache-less re-read, first value re-used later) with the overlay closed form",
-    "Partition chains of length 1-5 with overlapping keys (values now and then partitions themselves) plus sibling children of a random level and a function that hands a level on as its own result, both staging kinds, three parent provenances and three back-ends; every level is served again after its children were stored; every key is loaded on its own and compared with own-keys-win overlay; body counts show each level is memoized.",
+    "Partition chains of length 1-5 with overlapping keys (values now and then partitions themselves, or equal-comparing values of different types) plus sibling children of a random level and a function that hands a level on as its own result, both staging kinds, three parent provenances and three back-ends; every level is served again after its children were stored; every key is loaded on its own and compared with own-keys-win overlay; body counts show each level is memoized.",
     "Overlay closed form (dict.update in chain order) and vf.domain.eq are trusted.", "DESIGN.md §4 C17")
 
 add("C04", "exploration", "runtime monitoring: arg_hash, hit/miss (recorder + unique result serials) and received values of every call presentation, against an independent implementation of the documented algorithm and metamorphic relations",
-    "Thousands of call families over generated signatures (presentations: positional / keyword split, 1-3 partial steps, keyword partials completed by position, sibling partials, shuffled dictionaries): every equivalent presentation must produce the documented SHA-256 and be served the first presentation's result; every near-miss must produce a different key and run the body; the body's received values are compared with the arguments passed.",
+    "Thousands of call families over generated signatures (presentations: positional / keyword split, 1-3 partial steps, keyword partials completed by position, sibling partials, shuffled dictionaries; values include datetimes whose zone has date-dependent offsets and text that is not in a Unicode normalisation form): every equivalent presentation must produce the documented SHA-256 and be served the first presentation's result; every near-miss must produce a different key and run the body; the body's received values are compared with the arguments passed.",
     "vf.models.spec_arg_hash (written from the ArgumentHasher docstring and docs) is trusted; canonical JSON via json.dumps(sort_keys, compact separators).", "DESIGN.md §4 C04")
 add("C11", "exploration", "runtime monitoring: field-wise comparison of decode(encode(m)), recomputed argument hash, JSON stability, hand-written wire-schema validator, committed golden documents",
     "Random mementos over the whole argument domain are round-tripped through json text; each document is validated structurally; 60 golden documents written by the pinned tree must keep decoding to their recorded summaries.",
     "Structural equality of references; golden documents were produced by the pinned commit 6149a38.", "DESIGN.md §4 C11")
 
 add("C10", "exploration", "runtime monitoring: stored invocation / resource / dependency records of every recomputed call compared with a closed form simulated from the generated call-tree data, over all subsets of sub-calls memoized beforehand",
-    "Generated call DAGs with direct, keyword, partial, function-valued, batch (duplicates), failing and not-to-be-memoized sub-calls; for every subset (all 2^n for n<=5) of memoized sub-calls the recomputed records must equal the closed form; single and batch root invocation; three store configurations, subsets whose result data was removed, and runs with the named cluster's store opened read-only.",
+    "Generated call DAGs with direct, keyword, partial, function-valued, batch (duplicates), failing and not-to-be-memoized sub-calls; for every subset (all 2^n for n<=5) of memoized sub-calls the recomputed records must equal the closed form; single and batch root invocation; three store configurations, subsets whose result data was removed, runs with the named cluster's store opened read-only, trees evaluated on a worker thread, and aimed batches over two nodes of one function.",
     "The tree simulation (vf.trees.simulate) and the documented argument hash are trusted; dependencies are compared as sets of qualified names.", "DESIGN.md §4 C10")
 add("C16", "exploration", "runtime monitoring: recorder of parameters seen by bodies, look-ups of stored entries under effective and foreign contexts, recorded invocation contexts, body executions after a context change, outcome of prevented nested calls",
     "Call trees with context dictionaries attached at the root and at random inner edges; every entry must be found under its effective context only, with the documented hash; re-runs under the same / a different root context must execute exactly the predicted bodies; prevented nested calls must fail without executing.",
     "Effective-context closed form in vf.trees.simulate (inherit unless the edge attaches its own, which replaces entirely).", "DESIGN.md §4 C16")
 
 add("C15", "exploration", "runtime monitoring: slot-by-slot comparison of call_batch / map_over_range with individual calls on a twin store, store-state comparison, recorder body counts",
-    "Batches with duplicates, typed twins (1 / 1.0 / True), failing and not-to-be-memoized elements, ranges given as sequences, views and one-shot iterators, random pre-memoized subsets, both raise_first_exception settings, four presentations and three store kinds; each batch is mirrored by individual calls on a twin store.",
+    "Batches with duplicates, typed twins (1 / 1.0 / True), failing and not-to-be-memoized elements, elements that name different parameters, ranges given as sequences, views and one-shot iterators, random pre-memoized subsets, both raise_first_exception settings, four presentations and three store kinds; each batch is mirrored by individual calls on a twin store.",
     "Failures compare by class and message prefix; stored exceptions by recorded class name and message.", "DESIGN.md §4 C15")
 add("C18", "exploration", "runtime monitoring: behaviour vectors (tree snapshots + audit hook + call outcomes) of configured back-ends and clusters compared with constructor-argument equivalents over the full option matrix",
-    "Every option combination x five source forms (inline dict, cluster config, JSON file, YAML jinja template, nested relative files) is built and its behaviour observed; explicit-argument overrides, all repository orders with duplicated names, clusters listed under a name other than their own in every source form, histories of look-ups interleaved with repositories added later (live environment and its rebuilt dump), and environment dumps are checked the same way.",
+    "Every option combination x five source forms (inline dict, cluster config, JSON file, YAML jinja template, nested relative files) is built and its behaviour observed; explicit-argument overrides, all repository orders with duplicated names, clusters listed under a name other than their own in every source form, twin back-ends built from equal configurations, every template rendered a second time with other values, histories of look-ups interleaved with repositories added later (live environment and its rebuilt dump), and environment dumps are checked the same way.",
     "Behaviour vector = where files appear, cache hits for three value sizes, write/forget behaviour, body execution; the matrix is enumerated completely.", "DESIGN.md §4 C18")
 
 add("C12", "exploration", "runtime monitoring: parse results compared with the parts a name was built from (independent all-decompositions enumerator classifies ambiguous strings), stored entries looked up again in fresh processes, every metadata read observed after scripted code evolutions",
-    "Names over the stated alphabet are parsed, a sample is stored under real functions/clusters on a filesystem store and found again by call, memento(), list_mementos() and list_memoized_functions(); ten evolution kinds (edited, removed, renamed, made plain, re-clustered with and without its explicit version, version-bumped incl. odd version strings, ...) x five ways the pinned caller reaches the evolving callee (by name, as a function-valued argument bare or nested, through a partial, through a batch) are run across fresh processes in default and named clusters, with and without cache.",
+    "Names over the stated alphabet are parsed, a sample is stored under real functions/clusters on a filesystem store and found again by call, memento(), list_mementos() and list_memoized_functions(); thirteen evolution kinds (edited, removed, renamed, made plain, re-clustered with and without its explicit version, version-bumped incl. odd version strings, parameters dropped / swapped / prepended with the version kept, ...) x five ways the pinned caller reaches the evolving callee (by name, as a function-valued argument bare or nested, through a partial, through a batch) are run across fresh processes in default and named clusters, with and without cache.",
     "Inherently ambiguous qualified names (more than one valid decomposition) are reported as the single known finding K1; module and function names are dotted identifiers.", "DESIGN.md §4 C12")
 
 add("C01", "exploration", "runtime monitoring: value of every memento function after every edit of generated programs, compared with the twin (un-memoized) execution of the current edition; execution recorder shows which calls were served from the store",
-    "Generated programs (functions spread over two modules, the package's __init__.py and a second package; typed defaults and constants) with 22 edit kinds (incl. the earlier definition an old name still refers to, tuple <-> list variables) and aimed histories that re-pin two explicit versions so that their concatenation stays the same, one or several edits between calls, delivered across processes against one persistent store or inside a running process (cell-style re-execution, rebinding/mutation of variables, module reload); every function is called twice after every edit (callers first, or callees first with the arguments their callers pass, so that hidden callees are memoized already) and compared with running Python on the same source with memento_function = identity.",
+    "Generated programs (functions spread over two modules, the package's __init__.py and a second package; typed defaults and constants) with 26 edit kinds (incl. the earlier definition an old name still refers to, tuple <-> list and equal-number-other-type variables, a failing call moved out of / into a try block, decorator and factory arguments kept in closure cells, two aliases exchanging their targets) and aimed histories (two explicit versions re-pinned so that their concatenation stays the same, a variable taking the value another one holds, a helper in __init__.py), one or several edits between calls, delivered across processes against one persistent store or inside a running process (cell-style re-execution, rebinding/mutation of variables, module reload); every function is called twice after every edit (callers first, or callees first with the arguments their callers pass, so that hidden callees are memoized already) and compared with running Python on the same source with memento_function = identity.",
     "The twin execution defines the expected value; explicit versions above an edit are bumped (their contract); UndeclaredDependencyError is accepted; in cell-style delivery, imports and aliases that copy a re-executed definition are re-executed too.", "DESIGN.md §4 C01")
 
 add("C03", "exploration", "runtime monitoring: version maps reported by real interpreters under different PYTHONHASHSEED values, definition orders and query orders; execution trace file of a second process on the first one's store",
-    "Every generated program (all contain set and tuple constants, nested code and cross-module references; many span two packages and __init__.py; dictionaries built from sets, a memento function as default value, a symbol bound at the end of the module under the name of a missing attribute, a helper defined twice) is imported by 8 (quick) / 24 (thorough) real interpreters; all version maps must be identical; a second interpreter with another hash seed and other orders must execute no body at all on the first one's store.",
+    "Every generated program (all contain set and tuple constants, nested code and cross-module references; many span two packages and __init__.py; dictionaries built from sets, a memento function as default value, a symbol bound at the end of the module under the name of a missing attribute, a helper defined twice, module-level modifier clones next to their function, set constants of bytes and tuples, a builtin-named helper as the only helper of the function registered last) is imported by 8 (quick) / 24 (thorough) real interpreters; all version maps must be identical; a second interpreter with another hash seed and other orders must execute no body at all on the first one's store.",
     "Each interpreter is a fresh /venv/bin/python process; PYTHONHASHSEED values are a sample.", "DESIGN.md §4 C03")
 add("C13", "exploration", "runtime monitoring: version() of every registered function after every prefix of an in-process event sequence, compared with the versions a pristine forked child computes from the identical compilation units of the resulting program",
-    "Event sequences mixing redefinitions (also of unchanged definitions), events that nobody follows with a query, rebinding/mutation of variables, alias re-binding, late-defined symbols, memento/plain switches, modifier clones and unregistered wrappers, with interleaved subset queries, plus templated scenarios that re-bind a helper to functions of another module, re-bind a module alias, or define one of several undefined symbols of one name; after every event the running process's versions are compared with a from-scratch computation in a fresh child.",
+    "Event sequences mixing redefinitions (also of unchanged definitions), events that nobody follows with a query, rebinding/mutation of variables, alias re-binding, late-defined symbols, memento/plain switches, modifier clones and unregistered wrappers, with interleaved subset queries, plus templated scenarios that re-bind a helper to functions of another module, re-bind a module alias or the name of a memento function to its plain function / a clone / an unregistered wrapper, or define one of several undefined symbols of one name; aimed pairs (silent variable event, then a clone of a reader); after every event the running process's versions are compared with a from-scratch computation in a fresh child.",
     "The oracle child executes the base files with superseded definitions cut out plus the surviving cells (same pseudo-filenames), i.e. the code's own from-scratch computation; clones/wrappers are judged only at creation.", "DESIGN.md §4 C13")
 
 add("C14", "exploration", "runtime monitoring: reported transitive/direct dependency sets and dependency-graph edges of every memento function in exhaustively enumerated reference graphs (one pristine child each), and outcomes of hidden dynamic calls, against graph reachability",
-    "All 2048 three-node graphs (all subsets of edges incl. self-loops and cycles, all kind assignments) in twelve forms (bare name, module.attr, alias, decorator-wrapped with the decorator in the same or in another module, helpers in __init__.py with the root in a sub-module and the other way round, call chains, pinned versions, lambda and factory-made helpers, non-referenced names used as locals of nested scopes), four-node graphs in the thorough tier; random two-module programs with hidden globals() calls and function-valued defaults are executed - callers first and callees first - and must raise the undeclared-dependency error exactly when an executed hidden call leaves the caller's static closure; functions passed as arguments (bare, list, dict, nested) must be callable.",
+    "All 2048 three-node graphs (all subsets of edges incl. self-loops and cycles, all kind assignments) in fifteen forms (bare name, module.attr, alias, decorator-wrapped with the decorator in the same or in another module, helpers in __init__.py with the root in a sub-module and the other way round, call chains, pinned versions, lambda, factory-made and lru_cache-wrapped helpers, non-referenced names used as locals of nested scopes, names that begin one another), asked of every function and of a modifier clone of the root, four-node graphs in the thorough tier; random two-module programs with hidden globals() calls and function-valued defaults are executed - callers first and callees first - and must raise the undeclared-dependency error exactly when an executed hidden call leaves the caller's static closure; functions passed as arguments (bare, list, dict, nested) must be callable.",
     "Reachability on the generated graph data is the oracle; non-memento rules are ignored; small scopes are enumerated completely.", "DESIGN.md §4 C14")
 
 add("C08", "fault_enumeration", "runtime monitoring under fault injection: audit-hook failpoints (crash-before, crash-mid-write with content prefixes, error on the operation, error on write after n bytes) at every mutating filesystem operation of a memoizing call, plus kernel-level file size limits (RLIMIT_FSIZE) at every size class of the files written; calls observed in fresh processes afterwards",
-    "For each scenario a profiling run (deterministic version ids) enumerates every mkdir / open-for-write / rename / remove of the memoizing call; every operation is faulted in every applicable variant (thorough: every byte of every link file) in a pristine child, (scenarios incl. results larger than the memory cache that the caller keeps) then three fresh processes call the function and a second function with byte-identical results: values must be correct, nothing may raise, and no body may run in the third process (bounded recovery).",
+    "For each scenario a profiling run (deterministic version ids) enumerates every mkdir / open-for-write / rename / remove of the memoizing call; every operation is faulted in every applicable variant (thorough: every byte of every link file) in a pristine child, (scenarios incl. results larger than the memory cache that the caller keeps, and a partition chain computed inside one call) then three fresh processes (the last one also forgets the call and makes it again) call the function and a second function with byte-identical results: values must be correct, nothing may raise, and no body may run in the third process (bounded recovery).",
     "Crash = os._exit at the failpoint; faults hit mutating operations only; durability of completed writes is left to the file system; CPython audit events enumerate the operations.", "DESIGN.md §4 C08")
 
 add("C09", "exploration", "runtime monitoring under schedule control: a baton scheduler over sys.monitoring (LINE events in runner and cache code, function-entry events elsewhere, scheduler-aware locks) drives 2-3 real threads through systematically enumerated one-preemption schedules and random / PCT schedules; results, escaping errors, body counts, deadlocks, cache accounts and call stacks are checked per run",
-    "Per scenario (incl. the same call through modifier clones, and a caller whose batch element another thread computes) and store/cache state (filesystem cold / warm / warm cache, in-heap backend) every schedule with one preemption (every yield point of the unpreempted run) is executed, plus random and priority-based schedules (thorough: every starting thread, sampled two-preemption schedules, storage_filesystem at line granularity); each run is compared with sequential executions of the same thread bodies (values, body counts, cache accounts, recorded provenance). Evidence reports distinct switch traces.",
-    "Only locks created through the re-bound factories (RLock / Lock names of runner_local and storage_base) and module-level lock objects of these modules are visible to the scheduler; anything else blocking shows as a watchdog time-out = inconclusive. Line-granularity preemption is finer than what one CPython build does.", "DESIGN.md §4 C09")
+    "Per scenario (incl. the same call through modifier clones, a caller whose batch element another thread computes, three threads on a nested call, and an automatically versioned function whose module is loaded afresh before every run) and store/cache state (filesystem cold / warm / warm cache, in-heap backend) every schedule with one preemption (every yield point of the unpreempted run) is executed, plus random and priority-based schedules (thorough: every starting thread, sampled two-preemption schedules, storage_filesystem at line granularity); each run is compared with sequential executions of the same thread bodies (values, body counts, cache accounts, recorded provenance). Evidence reports distinct switch traces.",
+    "Only locks and condition variables created through the re-bound factories (RLock / Lock / Condition names of the package's modules) and module-level lock / condition objects of these modules are visible to the scheduler; anything else blocking shows as a watchdog time-out = inconclusive. Line-granularity preemption is finer than what one CPython build does.", "DESIGN.md §4 C09")
 
 NOT_BUILT = "check not built yet in this round (design in DESIGN.md §4); will be claimed once its monitor exists"
 
